@@ -120,8 +120,30 @@ def proof_obligations(pid):
 PROFILES = [('release', ['--release'], 'release'), ('dbgchk', ['--profile', 'dbgchk'], 'dbgchk')]
 
 
+def harness_src_stamp():
+    """cargo trusts mtimes; files copied in with preserved (old) mtimes would not trigger a rebuild.
+    Hash the harness sources and touch them when the content changed since the last build."""
+    import hashlib
+    h = hashlib.sha256()
+    files = []
+    for root, _, fs in os.walk(os.path.join(HARN, 'src')):
+        files += [os.path.join(root, f) for f in fs]
+    files += [os.path.join(HARN, 'Cargo.toml')]
+    for f in sorted(files):
+        h.update(f.encode()); h.update(open(f, 'rb').read())
+    stamp = os.path.join(HARN, 'target', '.srchash')
+    cur = h.hexdigest()
+    old = open(stamp).read() if os.path.exists(stamp) else ''
+    if cur != old:
+        for f in files:
+            os.utime(f, None)
+        os.makedirs(os.path.dirname(stamp), exist_ok=True)
+        open(stamp, 'w').write(cur)
+
+
 def build_harness():
     with Lock('cargo'):
+        harness_src_stamp()
         for name, flags, _ in PROFILES:
             rc, out = sh(['cargo', 'build', '--offline'] + flags, HARN)
             if rc != 0:
